@@ -101,6 +101,22 @@ static void run_products() {
         }
         vf::space(vf::KS() << "product: all pattern pairs " << m << "x" << k << " * " << k << "x" << n);
     }
+    // explicitly STORED zeros in the left factor (a matrix whose pattern is kept while some couplings became exactly zero): the
+    // result keeps the structural entries (the symbolic pass reads only the pattern) and their values are the dense sums; two
+    // rules for which stored entries of A are zero
+    for (auto s : std::vector<std::array<int,3>>{{3, 3, 3}, {2, 3, 3}}) {
+        int m = s[0], k = s[1], n = s[2];
+        uint64_t na = 1ull << (m * k), nb = 1ull << (k * n);
+        for (uint64_t ma = 0; ma < na; ++ma) {
+            if (!vf::take_group()) continue;
+            for (uint64_t mb = 0; mb < nb; ++mb) for (int zr = 0; zr < 2; ++zr) {
+                if (!vf::take_in_group([&]{ return pkey(zr ? "prodz1" : "prodz0", m, k, n, ma, mb); })) continue;
+                product_case<double>(zr ? "prodz1" : "prodz0", m, k, n, ma, mb,
+                    [zr](int i, int j){ bool z = zr ? ((i + j) % 2 == 1) : ((i + 2 * j) % 3 == 0); return z ? 0.0 : ival(i, j, 0); }, [](int i, int j){ return ival(i, j, 1); }, false);
+            }
+        }
+        vf::space(vf::KS() << "product with stored zeros in A: all pattern pairs " << m << "x" << k << " * " << k << "x" << n << " x 2 zero rules");
+    }
     // complex / block values on all 2x2*2x2 and 2x3*3x2 pairs (adjoint is not involved, but value arithmetic is)
     for (auto s : std::vector<std::array<int,3>>{{2,2,2},{2,3,2},{3,2,3}}) {
         int m = s[0], k = s[1], n = s[2];
@@ -455,6 +471,6 @@ int main(int argc, char **argv) {
     if (vf::section("conv")) run_convert();
     if (vf::section("spec")) run_spectral();
     if (vf::section("sum")) run_sum();
-    if (vf::section("prod") || vf::section("prodc") || vf::section("prodb") || vf::section("prodrow") || vf::section("produns")) run_products();
+    if (vf::section("prod") || vf::section("prodz") || vf::section("prodz0") || vf::section("prodz1") || vf::section("prodc") || vf::section("prodb") || vf::section("prodrow") || vf::section("produns")) run_products();
     return vf::finish();
 }
